@@ -1,5 +1,6 @@
 import RosuModel.Lemmas.DecodeLineNum
 import RosuModel.Lemmas.DecodeLineDriver
+import RosuModel.Lemmas.DecodeLineCurve
 
 /-!
 What the accepted lines guarantee about the numeric fields they push (hit objects, timing points),
@@ -9,9 +10,10 @@ namespace Rosu.DecodeLine
 open Rosu.Decode
 
 /-- the slider fields the parser bounds: at most 8999 repeats, `repeats + 2` node sounds, a pixel
-length of magnitude at most `MAX_COORDINATE_VALUE` -/
+length of magnitude at most `MAX_COORDINATE_VALUE`, at least one control point -/
 def KindOK : Kind → Prop
-  | .slider r len ns _ => r ≤ 8999 ∧ ns.length = r + 2 ∧ ∀ l, len = some l → F64.mag l ≤ maxCoord64
+  | .slider r len ns cps =>
+    r ≤ 8999 ∧ ns.length = r + 2 ∧ (∀ l, len = some l → F64.mag l ≤ maxCoord64) ∧ cps ≠ []
   | _ => True
 
 theorem nodeSounds_length (sound repeats : Nat) (s : Option Str) :
@@ -84,7 +86,9 @@ theorem parseSlider_ok (curve : List CP) (x y : Int) (sound : Nat) (ps rs : Str)
                 injection h with h
                 injection h with hk hs
                 subst hk
-                refine ⟨⟨?_, nodeSounds_length _ _ _, sliderLen_ok _ _ hlen⟩, trivial⟩
+                have hne := convertPathStr_ok_ne_nil curve ps x y (by rw [hcp])
+                rw [hcp] at hne
+                refine ⟨⟨?_, nodeSounds_length _ _ _, sliderLen_ok _ _ hlen, hne⟩, trivial⟩
                 split <;> omega
 
 theorem parseKind_ok (curve : List CP) (x y : Int) (time : Nat) (ty : Int) (sound : Nat)
